@@ -214,7 +214,7 @@ theorem same_value_mutator_silent (ts : TState) (recv : Nat) (e : Entry) (hg : e
     applyMut ts recv e true = ts := by
   unfold applyMut; simp [hg]
 
-/-- A plain guarded setter (`targets = [self]`, nothing relayed, no tree effect — 40 of the table's 97 entries) IS the
+/-- A plain guarded setter (`targets = [self]`, nothing relayed, no tree effect — 40 of the table's 108 entries) IS the
 `guardedSet` of M-Dirty on the receiver's chain: its silence is `same_value_silent`, its propagation is
 `change_propagates`. -/
 theorem plain_setter_is_guardedSet (ts : TState) (recv : Nat) (e : Entry) (hg : e.guarded = true) (ht : e.targets = [.self])
@@ -321,7 +321,7 @@ example : (applyMut demoT 2 newGlyphE false).tree.length = 13 ∧ path (applyMut
 example : (setter .glyph "width").guarded = true ∧ (setter .glyph "width").targets = [.self] ∧
     (setter .glyph "width").relay = .none ∧ (setter .glyph "width").effs = [] := by decide
 /-- the extractor decides targets and guards of the whole table (the relay column is validated by correspondence) -/
-example : (table.filter decided).length = 97 ∧ table.length = 97 := by decide +kernel
+example : (table.filter decided).length = 108 ∧ table.length = 108 := by decide +kernel
 
 end tree
 
